@@ -951,4 +951,428 @@ theorem sound_op (o : Opcode) (l r : Expr) (ihl : IH l) (ihr : IH r) : IH (.op o
     · exact sound_op_and l r ihl ihr
     · exact sound_op_err l r ihl ihr
 
+/-! ### sequences (`Block::type_info` loop vs `Block::resolve`) -/
+
+/-- soundness of a sequence typed from the accumulator `acc'` reached at its end -/
+def SeqSound (acc' : BlockAcc) (T' : TState) (cs : List Chk) : Res × St → Prop
+  | (.ok v, s') => memR v acc'.result.kind = true ∧ v.Sorted = true ∧ Conforms s' T'
+  | (.ret v, _) => memR v acc'.returns = true
+  | (.err, _) => acc'.fallible = true ∨ Chk.nan ∈ cs
+  | _ => True
+
+def IHS (es : Exprs) : Prop :=
+  ∀ (T : TState) (s : St) (acc : BlockAcc), es ≠ .nil → acc.afterNever = false →
+    AllNan (checksSeq es T acc) → Conforms s T →
+    SeqSound (typeSeq es T acc).1 (typeSeq es T acc).2 (checksSeq es T acc) (evalSeq es s)
+
+theorem typeSeq_fallible_mono : (es : Exprs) → (T : TState) → (acc : BlockAcc) → acc.fallible = true →
+    (typeSeq es T acc).1.fallible = true
+  | .nil, T, acc, h => by rw [typeSeq]; exact h
+  | .cons e es, T, acc, h => by
+    rw [typeSeq]
+    exact typeSeq_fallible_mono es _ _ (by simp [BlockAcc.step, h])
+
+theorem typeSeq_returns_mono : (es : Exprs) → (T : TState) → (acc : BlockAcc) → (w : Value) →
+    AllNan (checksSeq es T acc) → memR w acc.returns = true → memR w (typeSeq es T acc).1.returns = true
+  | .nil, T, acc, w, _, h => by rw [typeSeq]; exact h
+  | .cons e es, T, acc, w, hk, h => by
+    rw [checksSeq] at hk
+    simp only [allNan_append] at hk
+    rw [allNan_chk (by decide)] at hk
+    rw [typeSeq]
+    exact typeSeq_returns_mono es _ _ w hk.2 (memR_union_left hk.1.2 h)
+
+theorem sound_seq_nil : IHS .nil := by
+  intro T s acc hne
+  exact absurd rfl hne
+
+theorem sound_seq_cons (e : Expr) (es : Exprs) (ihe : IH e) (ihs : IHS es) : IHS (.cons e es) := by
+  intro T s acc _ han hk hc
+  rw [checksSeq] at hk ⊢
+  simp only [allNan_append] at hk
+  rw [allNan_chk (by decide)] at hk
+  obtain ⟨⟨hke, hu⟩, hks⟩ := hk
+  have h1 := ihe T s hke hc
+  rw [typeSeq]
+  cases es with
+  | nil =>
+    -- the last expression: its outcome is the block's
+    rw [evalSeq, typeSeq]
+    cases hq : eval e s with
+    | mk r s1 =>
+      rw [hq] at h1
+      cases r with
+      | ok v => simp only [Sound] at h1; simp only [SeqSound, BlockAcc.step]; exact h1
+      | err =>
+        simp only [Sound] at h1
+        simp only [SeqSound, BlockAcc.step, han]
+        rcases h1 with h | h
+        · exact Or.inl (by simp [h])
+        · exact Or.inr (List.mem_append_left _ (List.mem_append_left _ h))
+      | ret x =>
+        simp only [Sound] at h1
+        simp only [SeqSound, BlockAcc.step]
+        exact memR_union_right hu h1
+      | _ => trivial
+  | cons e' es' =>
+    rw [evalSeq]
+    · cases hq : eval e s with
+      | mk r s1 =>
+        rw [hq] at h1
+        cases r with
+        | ok v =>
+          simp only [Sound] at h1
+          have hnn : (typeInfo e T).1.kind.isNever = false := by
+            cases hn : (typeInfo e T).1.kind.isNever with
+            | false => rfl
+            | true => rw [memR_never v _ hn] at h1; cases h1.1
+          have := ihs (typeInfo e T).2 s1 (acc.step (typeInfo e T).1) (by simp)
+            (by simp [BlockAcc.step, han, hnn]) hks h1.2.2
+          simp only
+          cases hq2 : evalSeq (.cons e' es') s1 with
+          | mk r2 s2 =>
+            rw [hq2] at this
+            cases r2 with
+            | err =>
+              simp only [SeqSound] at this ⊢
+              rcases this with h | h
+              · exact Or.inl h
+              · exact Or.inr (List.mem_append_right _ h)
+            | _ => exact this
+        | err =>
+          simp only [Sound] at h1
+          simp only [SeqSound]
+          rcases h1 with h | h
+          · exact Or.inl (typeSeq_fallible_mono _ _ _ (by simp [BlockAcc.step, han, h]))
+          · exact Or.inr (List.mem_append_left _ (List.mem_append_left _ h))
+        | ret x =>
+          simp only [Sound] at h1
+          simp only [SeqSound]
+          exact typeSeq_returns_mono _ _ _ x hks (by simp only [BlockAcc.step]; exact memR_union_right hu h1)
+        | _ => trivial
+    · intro h; cases h
+
+/-! ### blocks and conditionals -/
+
+@[simp] theorem BlockAcc.finish_kind (a : BlockAcc) : a.finish.kind = a.result.kind := rfl
+@[simp] theorem BlockAcc.finish_fallible (a : BlockAcc) : a.finish.fallible = a.fallible := rfl
+@[simp] theorem BlockAcc.finish_returns (a : BlockAcc) : a.finish.returns = a.returns := rfl
+
+theorem sound_blk (es : Exprs) (ihs : IHS es) : IH (.blk es) := by
+  intro T s hk hc
+  rw [checks] at hk ⊢
+  simp only [allNan_append] at hk
+  rw [allNan_chk (by decide)] at hk
+  rw [typeInfo, eval]
+  cases es with
+  | nil => rw [evalSeq]; trivial
+  | cons e es' =>
+    have h := ihs T s {} (by simp) rfl hk.1 hc
+    cases hq : evalSeq (.cons e es') s with
+    | mk r s1 =>
+      rw [hq] at h
+      cases r with
+      | ok v =>
+        simp only [SeqSound] at h
+        simp only [Sound, BlockAcc.finish_kind]
+        exact ⟨h.1, h.2.1, Conforms.scope hk.2 h.2.2⟩
+      | err =>
+        simp only [SeqSound] at h
+        simp only [Sound, BlockAcc.finish_fallible]
+        rcases h with h | h
+        · exact Or.inl h
+        · exact Or.inr (List.mem_append_left _ h)
+      | ret x => simp only [SeqSound] at h; simp only [Sound, BlockAcc.finish_returns]; exact h
+      | _ => trivial
+
+theorem memR_orNull {v : Value} {K : Kind} (h : memR v K = true) : memR v K.orNull = true := by
+  rcases (memR_iff v K).mp h with h1 | ⟨h1, _⟩
+  · exact memR_of_mem (mem_orNull_of_mem v K h1)
+  · subst h1
+    cases K with
+    | mk p a o => simp [memR, mem, Kind.orNull, Kind.prim]
+
+theorem memR_null_orNull (K : Kind) : memR .null K.orNull = true := by
+  cases K with
+  | mk p a o => simp [memR, mem, Kind.orNull, Kind.prim]
+
+theorem sound_ifte (pred thn : Exprs) (hasElse : Bool) (els : Exprs) (ihp : IHS pred) (iht : IHS thn)
+    (ihe : IHS els) : IH (.ifte pred thn hasElse els) := by
+  intro T s hk hc
+  rw [checks] at hk ⊢
+  rw [typeInfo, eval]
+  simp only [allNan_append] at hk
+  obtain ⟨⟨⟨⟨hkp, hkb⟩, hkt⟩, hst⟩, hrest⟩ := hk
+  rw [allNan_chk (by decide)] at hkb hst
+  simp only [Bool.and_eq_true, Bool.not_eq_true', BlockAcc.finish_kind, BlockAcc.finish_fallible] at hkb
+  have hc0 : Conforms { s with evShort := true } T := Conforms.of_same (s := s) ⟨rfl, rfl, rfl, rfl⟩ hc
+  cases pred with
+  | nil => rw [evalSeq]; trivial
+  | cons p0 ps =>
+    have h1 := ihp T _ {} (by simp) rfl hkp hc0
+    cases hq : evalSeq (.cons p0 ps) { s with evShort := true } with
+    | mk r1 s1 =>
+      rw [hq] at h1
+      cases r1 with
+      | ok v =>
+        simp only [SeqSound] at h1
+        obtain ⟨b, rfl⟩ := memR_isBoolean hkb.1 h1.1
+        cases b with
+        | true =>
+          -- the `if` block runs
+          simp only
+          cases thn with
+          | nil => rw [evalSeq]; trivial
+          | cons t0 ts =>
+            have h2 := iht _ s1 {} (by simp) rfl hkt h1.2.2
+            cases hq2 : evalSeq (.cons t0 ts) s1 with
+            | mk r2 s2 =>
+              rw [hq2] at h2
+              cases hasElse with
+              | true =>
+                simp only [if_true, allNan_append] at hrest
+                obtain ⟨⟨⟨⟨⟨hke, hse⟩, hu1⟩, hu2⟩, hu3⟩, hm⟩ := hrest
+                rw [allNan_chk (by decide)] at hse hu1 hu2 hu3
+                have mok := mergeOk_of_checks hm
+                simp only [ifResult, if_true]
+                cases r2 with
+                | ok w =>
+                  simp only [SeqSound] at h2
+                  simp only [Sound]
+                  exact ⟨memR_union_left hu1 h2.1, h2.2.1,
+                    Conforms.merge_left mok (Conforms.scope hst h2.2.2)⟩
+                | err =>
+                  simp only [SeqSound] at h2
+                  simp only [Sound]
+                  rcases h2 with h | h
+                  · exact Or.inl (by simp [TypeDef.withReturns, h])
+                  · exact Or.inr (List.mem_append_left _ (List.mem_append_left _ (List.mem_append_right _ h)))
+                | ret x =>
+                  simp only [SeqSound] at h2
+                  simp only [Sound]
+                  exact memR_union_left hu3 (memR_union_left hu2 h2)
+                | _ => trivial
+              | false =>
+                simp only [Bool.false_eq_true, if_false, allNan_append] at hrest
+                obtain ⟨hu, hm⟩ := hrest
+                rw [allNan_chk (by decide)] at hu
+                have mok := mergeOk_of_checks hm
+                simp only [ifResult, Bool.false_eq_true, if_false]
+                cases r2 with
+                | ok w =>
+                  simp only [SeqSound] at h2
+                  simp only [Sound]
+                  exact ⟨memR_orNull h2.1, h2.2.1, Conforms.merge_left mok (Conforms.scope hst h2.2.2)⟩
+                | err =>
+                  simp only [SeqSound] at h2
+                  simp only [Sound]
+                  rcases h2 with h | h
+                  · exact Or.inl (by simp [TypeDef.withReturns, TypeDef.orNull, h])
+                  · exact Or.inr (List.mem_append_left _ (List.mem_append_left _ (List.mem_append_right _ h)))
+                | ret x =>
+                  simp only [SeqSound] at h2
+                  simp only [Sound]
+                  exact memR_union_left hu h2
+                | _ => trivial
+        | false =>
+          cases hasElse with
+          | true =>
+            simp only [if_true, allNan_append] at hrest ⊢
+            obtain ⟨⟨⟨⟨⟨hke, hse⟩, hu1⟩, hu2⟩, hu3⟩, hm⟩ := hrest
+            rw [allNan_chk (by decide)] at hse hu1 hu2 hu3
+            have mok := mergeOk_of_checks hm
+            simp only [ifResult, if_true]
+            cases els with
+            | nil => rw [evalSeq]; trivial
+            | cons e0 es =>
+              have h2 := ihe _ s1 {} (by simp) rfl hke h1.2.2
+              cases hq2 : evalSeq (.cons e0 es) s1 with
+              | mk r2 s2 =>
+                rw [hq2] at h2
+                cases r2 with
+                | ok w =>
+                  simp only [SeqSound] at h2
+                  simp only [Sound]
+                  exact ⟨memR_union_right hu1 h2.1, h2.2.1,
+                    Conforms.merge_right mok (Conforms.scope hse h2.2.2)⟩
+                | err =>
+                  simp only [SeqSound] at h2
+                  simp only [Sound]
+                  rcases h2 with h | h
+                  · exact Or.inl (by simp [TypeDef.withReturns, h])
+                  · exact Or.inr (List.mem_append_right _ (List.mem_append_left _ (List.mem_append_left _
+                      (List.mem_append_left _ (List.mem_append_left _ (List.mem_append_left _ h))))))
+                | ret x =>
+                  simp only [SeqSound] at h2
+                  simp only [Sound]
+                  exact memR_union_left hu3 (memR_union_right hu2 h2)
+                | _ => trivial
+          | false =>
+            simp only [Bool.false_eq_true, if_false, allNan_append] at hrest ⊢
+            obtain ⟨hu, hm⟩ := hrest
+            have mok := mergeOk_of_checks hm
+            simp only [ifResult, Bool.false_eq_true, if_false, Sound]
+            exact ⟨memR_null_orNull _, rfl, Conforms.merge_right mok h1.2.2⟩
+      | err =>
+        simp only [SeqSound] at h1
+        simp only [Sound]
+        rcases h1 with h | h
+        · rw [hkb.2] at h; cases h
+        · exact Or.inr (List.mem_append_left _ (List.mem_append_left _ (List.mem_append_left _
+            (List.mem_append_left _ h))))
+      | ret x =>
+        -- the predicate may `return`
+        simp only [SeqSound] at h1
+        simp only [Sound]
+        cases hasElse with
+        | true =>
+          simp only [if_true, allNan_append] at hrest
+          obtain ⟨⟨⟨⟨⟨_, _⟩, _⟩, _⟩, hu3⟩, _⟩ := hrest
+          rw [allNan_chk (by decide)] at hu3
+          simp only [ifResult, if_true]
+          exact memR_union_right hu3 h1
+        | false =>
+          simp only [Bool.false_eq_true, if_false, allNan_append] at hrest
+          obtain ⟨hu, _⟩ := hrest
+          rw [allNan_chk (by decide)] at hu
+          simp only [ifResult, Bool.false_eq_true, if_false]
+          exact memR_union_right hu h1
+      | _ => trivial
+
+/-! ### array literals -/
+
+theorem ArrAcc.step_of_not_never (a : ArrAcc) (t : TypeDef) (h : t.kind.isNever = false) :
+    a.step t = { a with tds := a.tds ++ [t], fallible := a.fallible || t.fallible } := by
+  simp [ArrAcc.step, h]
+
+theorem ArrAcc.step_fallible (a : ArrAcc) (t : TypeDef) : (a.step t).fallible = (a.fallible || t.fallible) := by
+  unfold ArrAcc.step; simp only []; split <;> rfl
+
+theorem ArrAcc.step_stop_fallible (a : ArrAcc) (t : TypeDef) (ha : a.stop = none) (td : TypeDef)
+    (h : (a.step t).stop = some td) : td.fallible = (a.fallible || t.fallible) := by
+  unfold ArrAcc.step at h
+  simp only [] at h
+  split at h
+  · simp only [Option.some.injEq] at h; subst h; rfl
+  · simp only [ha] at h; cases h
+
+theorem typeArr_fallible_mono : (es : Exprs) → (T : TState) → (acc : ArrAcc) → acc.stop = none →
+    acc.fallible = true → (typeArr es T acc).1.finish.fallible = true
+  | .nil, T, acc, hs, hf => by rw [typeArr]; simp [ArrAcc.finish, hs, hf]
+  | .cons e es, T, acc, hs, hf => by
+    rw [typeArr]
+    have hf' : (acc.step (typeInfo e T).1.upgradeUndefined).fallible = true := by
+      rw [ArrAcc.step_fallible, hf]; rfl
+    cases hst : (acc.step (typeInfo e T).1.upgradeUndefined).stop with
+    | some td =>
+      simp only [Option.isSome_some, if_true]
+      have := ArrAcc.step_stop_fallible acc _ hs td hst
+      simp only [ArrAcc.finish, hst]
+      rw [this, hf]; rfl
+    | none =>
+      simp only [Option.isSome_none, Bool.false_eq_true, if_false]
+      exact typeArr_fallible_mono es _ _ hst hf'
+
+def ArrSound (acc acc' : ArrAcc) (T' : TState) (cs : List Chk) : Except Res VList × St → Prop
+  | (.ok vs, s') => acc'.stop = none ∧ (∃ L, acc'.tds = acc.tds ++ L ∧ ListMem vs L) ∧ Conforms s' T'
+  | (.error .err, _) => acc'.finish.fallible = true ∨ Chk.nan ∈ cs
+  | (.error (.ret _), _) => False
+  | (.error (.ok _), _) => False
+  | _ => True
+
+def IHL (es : Exprs) : Prop :=
+  ∀ (T : TState) (s : St) (acc : ArrAcc), acc.stop = none → AllNan (checksArr es T acc) → Conforms s T →
+    ArrSound acc (typeArr es T acc).1 (typeArr es T acc).2 (checksArr es T acc) (evalList es s)
+
+theorem sound_list_nil : IHL .nil := by
+  intro T s acc hs _ hc
+  rw [typeArr, evalList]
+  exact ⟨hs, ⟨[], by simp, trivial⟩, hc⟩
+
+theorem sound_list_cons (e : Expr) (es : Exprs) (ihe : IH e) (ihl : IHL es) : IHL (.cons e es) := by
+  intro T s acc hs hk hc
+  rw [checksArr] at hk ⊢
+  simp only [allNan_append] at hk
+  rw [allNan_chk (by decide)] at hk
+  obtain ⟨⟨hke, hret⟩, hkl⟩ := hk
+  have h1 := ihe T s hke hc
+  rw [typeArr, evalList]
+  cases hq : eval e s with
+  | mk r s1 =>
+    rw [hq] at h1
+    cases r with
+    | ok v =>
+      simp only [Sound] at h1
+      have hm : mem v (typeInfo e T).1.upgradeUndefined.kind = true := mem_upgrade_of_memR h1.1
+      have hnn := not_never_of_mem v _ hm
+      have hstep := ArrAcc.step_of_not_never acc _ hnn
+      have hs' : (acc.step (typeInfo e T).1.upgradeUndefined).stop = none := by rw [hstep]; exact hs
+      have h2 := ihl (typeInfo e T).2 s1 _ hs' hkl h1.2.2
+      simp only [hs', Option.isSome_none, Bool.false_eq_true, if_false]
+      cases hq2 : evalList es s1 with
+      | mk r2 s2 =>
+        rw [hq2] at h2
+        cases r2 with
+        | ok vs =>
+          simp only [ArrSound] at h2 ⊢
+          obtain ⟨h2a, ⟨L, hL, hLm⟩, h2c⟩ := h2
+          refine ⟨h2a, ⟨(typeInfo e T).1.upgradeUndefined :: L, ?_, hm, h1.2.1, hLm⟩, h2c⟩
+          rw [hL, hstep]; simp
+        | error r =>
+          cases r with
+          | err =>
+            simp only [ArrSound] at h2 ⊢
+            rcases h2 with h | h
+            · exact Or.inl h
+            · exact Or.inr (List.mem_append_right _ h)
+          | ret x => exact h2
+          | ok x => exact h2
+          | _ => trivial
+    | err =>
+      simp only [Sound] at h1
+      simp only [ArrSound]
+      rcases h1 with h | h
+      · left
+        have hf' : (acc.step (typeInfo e T).1.upgradeUndefined).fallible = true := by
+          rw [ArrAcc.step_fallible]
+          simp [TypeDef.upgradeUndefined, h]
+        cases hst : (acc.step (typeInfo e T).1.upgradeUndefined).stop with
+        | some td =>
+          simp only [Option.isSome_some, if_true]
+          have := ArrAcc.step_stop_fallible acc _ hs td hst
+          simp only [ArrAcc.finish, hst]
+          rw [this]
+          simp [TypeDef.upgradeUndefined, h]
+        | none =>
+          simp only [Option.isSome_none, Bool.false_eq_true, if_false]
+          exact typeArr_fallible_mono es _ _ hst hf'
+      · exact Or.inr (List.mem_append_left _ (List.mem_append_left _ h))
+    | ret x =>
+      simp only [Sound] at h1
+      rw [memR_never x _ hret] at h1; cases h1
+    | _ => trivial
+
+theorem sound_arr (es : Exprs) (ihl : IHL es) : IH (.arr es) := by
+  intro T s hk hc
+  rw [checks] at hk ⊢
+  have h := ihl T s {} rfl hk hc
+  rw [typeInfo, eval]
+  cases hq : evalList es s with
+  | mk r s1 =>
+    rw [hq] at h
+    cases r with
+    | ok vs =>
+      simp only [ArrSound] at h
+      obtain ⟨hst, ⟨L, hL, hLm⟩, hc'⟩ := h
+      simp only [Sound, ArrAcc.finish, hst]
+      have : (typeArr es T {}).1.tds = L := by rw [hL]; rfl
+      rw [this]
+      exact ⟨memR_of_mem (mem_arr_of_listMem vs L hLm), ListMem.sorted vs L hLm, hc'⟩
+    | error r =>
+      cases r with
+      | err => simp only [ArrSound] at h; simp only [Sound]; exact h
+      | ret x => exact absurd h (by simp [ArrSound])
+      | ok x => exact absurd h (by simp [ArrSound])
+      | _ => trivial
+
 end Lang
